@@ -167,3 +167,27 @@ macro_rules! hdr_bytes {
 hdr_bytes!(hdr_bytes_opt_u32, Option<u32>, 0, 128, 40);
 // @h hdr_bytes_vec_u16 props=C06,C07 tier=thorough kind=bounded bound="len<=2" vars="v:Vec<u16>" fns="ser/mod.rs:write_header"
 hdr_bytes!(hdr_bytes_vec_u16, Vec<u16>, 2, 128, 40);
+
+/// the header written for `&[T]` is the header of `Vec<T>` (SerType): name and hashes
+// @h hdr_bytes_slice_u16 props=C06,C16 tier=quick kind=bounded bound="len<=1" vars="v:&[u16] over a symbolic Vec<u16>" fns="ser/mod.rs:serialize_on_field_write (SerType),ser/mod.rs:write_header"
+#[kani::proof]
+#[kani::unwind(40)]
+pub fn hdr_bytes_slice_u16() {
+    let owner = <Vec<u16>>::sym(1);
+    let s: &[u16] = owner.as_slice();
+    let mut sink = ArrSink::<128>::new();
+    let r = s.serialize(&mut sink);
+    assert!(r.is_ok(), "[C01/ser.ok] serialization into an infallible sink succeeds");
+    let mut th = xxhash_rust::xxh3::Xxh3::new();
+    <Vec<u16> as TypeHash>::type_hash(&mut th);
+    let mut ahh = xxhash_rust::xxh3::Xxh3::new();
+    let mut off = 0usize;
+    <Vec<u16> as AlignHash>::align_hash(&mut ahh, &mut off);
+    let mut o = RefOut::<128>::new();
+    enc_header(&mut o, th.finish(), ahh.finish(), core::any::type_name::<Vec<u16>>());
+    owner.enc(&mut o);
+    let same = same_bytes(sink.bytes(), o.bytes());
+    assert!(same, "[C06/header.sertype] a slice reference is written with the header (name, hashes) of the vector type it deserializes as");
+    assert!(same, "[C16/slice.header] a slice reference is written with the header of the corresponding vector");
+    core::mem::forget(r);
+}
